@@ -119,7 +119,7 @@ def defects_section():
            "replay file / docs/CNN.md).  Repairs are single unguarded `fix:` commits in `/repo` (the pinned test suite, unedited, "
            "passes with the tag off on the final tree: 1789/1789); what was not small and safe to repair is a *known finding* "
            "with a specific key - a different violation of the same property is still reported.\n",
-           "### 6.1 Repaired (`fix:` commits, %d)\n" % len(kf.get("fixed", [])),
+           "### 6.1 Repaired (`fix:` commits, %d)\n" % sum(1 for f in kf.get("fixed", []) if f.startswith("fixed:")),
            "| property | commit | what failed |", "|---|---|---|"]
     for f in kf.get("fixed", []):
         m = re.match(r"fixed: property=(\S+) (\S+) (.*)", f, re.S)
